@@ -140,7 +140,9 @@ pub fn c09_sessions(t: Tier) -> usize {
 pub fn c09_samples(t: Tier) -> usize {
     t.pick(6, 200)
 }
-const C09_PAR: usize = 10;
+fn c09_par(t: Tier) -> usize {
+    t.pick(10, 60)
+}
 pub fn isolated_c09(t: Tier, i: usize) -> bool {
     i >= 1 + c09_sessions(t) + c09_samples(t) * C09_CHUNKS && (i % 2 == 0 || i + 1 == runs_c09(t))
 }
@@ -148,7 +150,7 @@ fn c09_soak_n(t: Tier) -> usize {
     t.pick(1100, 70_000)
 }
 pub fn runs_c09(t: Tier) -> usize {
-    1 + c09_sessions(t) + c09_samples(t) * C09_CHUNKS + C09_PAR + 1
+    1 + c09_sessions(t) + c09_samples(t) * C09_CHUNKS + c09_par(t) + 1
 }
 
 /// Two signers (different master keys) on two caller threads, then two verifiers.
@@ -402,12 +404,14 @@ pub fn c10_sessions(t: Tier) -> usize {
 pub fn c10_samples(t: Tier) -> usize {
     t.pick(8, 300)
 }
-const C10_PAR: usize = 12;
+fn c10_par(t: Tier) -> usize {
+    t.pick(12, 72)
+}
 pub fn isolated_c10(t: Tier, i: usize) -> bool {
     i >= 2 + c10_sessions(t) + c10_samples(t) * C10_CHUNKS && (i % 2 == 0 || i + 1 == runs_c10(t))
 }
 pub fn runs_c10(t: Tier) -> usize {
-    2 + c10_sessions(t) + c10_samples(t) * C10_CHUNKS + C10_PAR + 1
+    2 + c10_sessions(t) + c10_samples(t) * C10_CHUNKS + c10_par(t) + 1
 }
 
 /// Two encryptions by two caller threads (different master keys, or one master key and two
@@ -916,7 +920,7 @@ fn c17_faults_per_sample(t: Tier) -> usize {
     2 * (bits + 4)
 }
 pub fn runs_c17(t: Tier) -> usize {
-    1 + c17_sessions(t) + c17_samples(t) * c17_faults_per_sample(t) + 1 + C17_PAR
+    1 + c17_sessions(t) + c17_samples(t) * c17_faults_per_sample(t) + 1 + c17_par(t)
 }
 
 /// klen = 1 and an r_B for which the derived key byte is 00 (probability 2^-8 per r_B): GM/T 0044.3
@@ -1150,19 +1154,21 @@ fn c17_concurrent(p: &mut Prng, w: &mut World) {
     }
 }
 
-const C17_PAR: usize = 10;
+fn c17_par(t: Tier) -> usize {
+    t.pick(10, 60)
+}
 pub fn isolated_c17(t: Tier, i: usize) -> bool {
-    i >= runs_c17(t) - C17_PAR && i % 2 == 0
+    i >= runs_c17(t) - c17_par(t) && i % 2 == 0
 }
 
 pub fn run_c17(p: &mut Prng, t: Tier, i: usize, sink: &mut Sink) {
     let mut w = World::new();
-    if i >= runs_c17(t) - C17_PAR {
+    if i >= runs_c17(t) - c17_par(t) {
         c17_concurrent(p, &mut w);
         sink.done(w);
         return;
     }
-    let t_runs_without_par = runs_c17(t) - C17_PAR;
+    let t_runs_without_par = runs_c17(t) - c17_par(t);
     if i == 0 {
         let plan = KexPlan { impl_a: "lib", impl_b: "lib", tamper: None, conform: true };
         kex_session(
